@@ -242,6 +242,18 @@ def release_loop(ctx, rep, R):
             rep.check(not loop_body_exits_early(lp) and not walk_nodes(lp.body, ast.Continue), R,
                       key(f, lp.iter, "the whole queue is scanned (no break / return / continue)"), f, lp,
                       "stopping at the first package that is not due couples unrelated requests: a fast cancel waits behind a slow placement")
+    # the queue is not shortened while it is being walked: `for p in queue: ... queue.remove(p)` makes the
+    # iterator skip the package behind every removed one (it is released one update late, or out of order)
+    for lp in walk_nodes(f.node.body, ast.For):
+        if utext(lp.iter) == "self.handler_queue":
+            for c2 in walk_calls(lp.body):
+                if recv_text(c2) == "self.handler_queue" and call_name(c2) in ("remove", "pop", "insert", "clear", "sort", "reverse"):
+                    rep.violation(R, key(f, c2, "the queue is changed while the scan iterates over it"), f, c2,
+                                  "removal during iteration skips the next package")
+            for d in walk_nodes(lp.body, ast.Delete):
+                if any("self.handler_queue" in utext(t) for t in d.targets):
+                    rep.violation(R, key(f, d, "the queue is changed while the scan iterates over it"), f, d,
+                                  "removal during iteration skips the next package")
     for n, c in hc:
         pv = utext(c.args[0]) if c.args else None
         gs = [g for g, pol in cfg.guards(n.id) if pol]
